@@ -32,7 +32,8 @@ def seeded_table():
         note = re.sub(r"^#+ *", "", note)[:260].replace("|", "/")
         caught = m.get("caught_by_check")
         how = ("`./check %s` (quick)" % m["property"]) if caught else (
-            "**missed**" if caught is False else "not run yet")
+            ("not caught - " + m["not_caught_reason"][:160] + "...") if m.get("not_caught_reason") else (
+                "**missed**" if caught is False else "not run yet"))
         if m.get("caught_after"):
             how += " - " + m["caught_after"]
         keys = "; ".join(k.split(" count=")[0].replace("key=", "") for k in (m.get("violation_keys") or [])[:2])
